@@ -15,26 +15,30 @@ Model: `Aergo.Model.Json` (encoding/json into CallInfo, from raw bytes) and `Aer
 `panic site` outcome).  Every theorem below is for *all* environments `e : Env`: all payload byte
 strings, all field contents, all results of the library decoders, all sender/contract records.
 
-Status on the pinned tree: the statement is VIOLATED.  Seven sites have no guard (`pinned`); each
-is exhibited below by a concrete witness (`decide`), and each was reproduced on the real code by
-the harness (notes/C14.md).  What is proved:
+History.  The first version of this check found eight ways to crash a node on the then-pinned
+tree.  Six guards were added to /repo (fix commits b11917e3, 2586c6fa, 9f771520); the model's
+`pinned` list lost those six sites, the harness treats any panic there as a fresh violation.
 
- * `admit_panics_only_at_unguarded`, `execute_panics_only_at_unguarded` — for every list `u` of
-   still-unguarded sites: a panic can only happen at a site of `u` (under the state invariants
-   spelled out as hypotheses).  All the *other* 23 traps of the model — every index, slice and type
-   assertion on payload-derived data in the scanned functions — are unreachable.
- * `validate_total_partial`, `execute_total_partial` — the pinned tree (`u = pinned`): a panic is at
-   one of the seven known sites.
- * `validate_total_repaired`, `execute_total_repaired` — the tree with the seven proposed repairs
-   (`u = []`, notes/C14.md): no panic at all, i.e. the full-strength statement.  The repairs are
-   modelled as *added checks* (`fixGuard`); the dangerous operations below them keep their panic
-   semantics, so this is a theorem about the repaired code, not a definition.
+Status on the current tree:
+
+ * FIRST CLAUSE (admission never panics): holds at FULL strength — `validate_total`.
+ * SECOND CLAUSE (an admitted transaction executes without a crash): still VIOLATED at two
+   execution-only sites, recorded as known findings (a guard would change which historical voteBP
+   transactions validate and needs a hard-fork gate): `rAddSlice` (BP vote for a peer id that is not
+   39 bytes) and its consequence `rSubNil`.  Witnesses `w6`, `w7`; `execute_total_violated`;
+   `execute_total_partial` (a panic can only be at one of these two); `execute_total_repaired`
+   (with the one remaining guard, and the state invariant it establishes, no panic at all).
+ * `admit_panics_only_at_unguarded`, `execute_panics_only_at_unguarded` — the general form, for every
+   list `u` of unguarded sites; `admit_reaches_only_admission_sites` — the syntactic complement.
+   The repairs are modelled as *added checks* (`fixGuard`); the dangerous operations below them keep
+   their panic semantics, so totality is proved about the repaired code, not defined.
  * termination: every model function is a total Lean function (structural recursion on lists, or on
    an explicit fuel ≥ 2·len+4 in the JSON parser), so "always terminates" holds by construction.
  * `assert_sites_known` … — tie T: the syntactic inventory regenerated from the source on every
    run equals the table the model was written against.
 -/
 import Aergo.Lemmas.Admit
+import Aergo.Lemmas.AdmitReach
 import Aergo.Gen.AssertSites
 
 namespace Aergo.Props.C14
@@ -66,19 +70,23 @@ theorem pinned_are_sites : pinned.all (fun s => allSites.contains s) = true := b
 /-! ### State invariants the theorems assume (each with the site it protects) -/
 
 /-- What the theorems assume about the state and the Go runtime:
- * `admins`  — the stored admin list can be read back in 33-byte steps (site `gAdmins`);
- * `votes`   — the sender's old vote records only name candidates present in the tally (`rSubNil`);
- * `rpc`     — stored RPCPERMISSIONS values contain a `:` (`cRpcSplit`);
- * `cap`     — len ≤ cap for the candidate buffer (`rAddSlice`; a fact of Go slices).
-On the pinned tree `admins` and `votes` can be *broken by admitted transactions* (appendAdmin of a
-short address; voteBP of a peer id that is not 39 bytes) — that is two of the seven findings. -/
+ * `admins`  — the stored admin list can be read back in 33-byte steps (site `gAdmins`); since fix
+   2586c6fa only 33-byte addresses are ever appended, so every reachable state satisfies it
+   (argued, not machine-checked: the only writer is `setAdmins(append(admins, address))`);
+ * `rpc`     — stored RPCPERMISSIONS values contain a `:` (`cRpcSplit`; `checkRPCPermissions` accepts
+   nothing else);
+ * `cap`     — len ≤ cap for the candidate buffer (`rAddSlice`; a fact of Go slices);
+ * `votes`   — the sender's old vote records only name candidates present in the tally (`rSubNil`).
+   On the current tree `votes` can still be broken by an admitted transaction (a BP vote for a 34-byte
+   peer id): that is the known finding C14-subVote-corrupt-old-vote; the theorems about the pinned
+   tree therefore do not assume it. -/
 structure StateOk (e : Env) : Prop where
   admins : e.adminsReadable = true
   votes : OldVotesOk e
   rpc : RpcOk e
   cap : CapOk e
 
-/-! ### Main theorems -/
+/-! ### General form -/
 
 /-- Pool admission (Validate, signature, sender state, stateful governance validation) of any
 transaction panics only at a site whose guard is missing. -/
@@ -87,50 +95,57 @@ theorem admit_panics_only_at_unguarded (u : List Site) (e : Env)
     poolAdmit u e = .panic s → s ∈ u :=
   safe_poolAdmit u e hA hR s
 
+/-- Whatever the guards, pool admission only ever traps at an admission site: the execution-only traps
+(`newVoteCmd`, `AddVote`, `SubVote`, `ExecuteNameTx`, `ExecuteEnterpriseTx`) do not occur in it. -/
+theorem admit_reaches_only_admission_sites (u : List Site) (e : Env) (s : Site) :
+    poolAdmit u e = .panic s → s ∈ admissionSites :=
+  reach_poolAdmit u e s
+
 /-- Block execution of any transaction (admitted or not) panics only at a site whose guard is missing. -/
 theorem execute_panics_only_at_unguarded (u : List Site) (e : Env)
-    (hA : .gAdmins ∈ u ∨ e.adminsReadable = true) (hR : RpcOk e) (hV : OldVotesOk e) (hC : CapOk e) (s : Site) :
+    (hA : .gAdmins ∈ u ∨ e.adminsReadable = true) (hR : RpcOk e) (hV : .rSubNil ∈ u ∨ OldVotesOk e)
+    (hC : CapOk e) (s : Site) :
     execute u e = .panic s → s ∈ u :=
   safe_execute u e hA hR hV hC s
 
-/- Full statement (property C14), false on the pinned tree:
-     validate_total : ∀ e s, StateOk e → poolAdmit pinned e ≠ .panic s
-     execute_total  : ∀ e s, StateOk e → poolAdmit pinned e = .ok () → execute pinned e ≠ .panic s
-   Missing: the guards of the seven sites of `pinned`.  Proved instead: -/
+/-! ### The current tree (`pinned` = the two known execution sites) -/
 
-/-- PARTIAL (pinned tree): admission panics only at one of the known unguarded sites. -/
-theorem validate_total_partial (e : Env) (hR : RpcOk e) (s : Site) (h : poolAdmit pinned e = .panic s) :
-    s = .tNameUpdTo ∨ s = .tNameOwner0 ∨ s = .vDaoVal ∨ s = .eAdmin0 ∨ s = .eCheckArgs0 ∨ s = .rAddSlice ∨ s = .gAdmins := by
-  have := admit_panics_only_at_unguarded pinned e (.inl (by decide)) hR s h
+/-- FULL STRENGTH, first clause of C14: on the current tree pool admission of any transaction —
+any payload bytes, any field contents, any sender state — never panics. -/
+theorem validate_total (e : Env) (hA : e.adminsReadable = true) (hR : RpcOk e) (s : Site) :
+    poolAdmit pinned e ≠ .panic s := by
+  intro hp
+  have h1 := admit_panics_only_at_unguarded pinned e (.inr hA) hR s hp
+  have h2 := admit_reaches_only_admission_sites pinned e s hp
+  simp only [pinned, List.mem_cons, List.not_mem_nil, or_false] at h1
+  rcases h1 with h1 | h1 <;> subst h1 <;> exact absurd h2 (by decide)
+
+/- Full statement of the second clause, false on the current tree:
+     execute_total : ∀ e s, StateOk e → poolAdmit pinned e = .ok () → execute pinned e ≠ .panic s
+   Missing: the guard of `rAddSlice` (known finding, needs a hard-fork gate).  Proved instead: -/
+
+/-- PARTIAL, second clause: executing any transaction (in particular any admitted one) panics at most
+at one of the two known sites.  `OldVotesOk` is *not* assumed (it is what `rSubNil` is about). -/
+theorem execute_total_partial (e : Env) (hA : e.adminsReadable = true) (hR : RpcOk e) (hC : CapOk e) (s : Site)
+    (h : execute pinned e = .panic s) : s = .rAddSlice ∨ s = .rSubNil := by
+  have := execute_panics_only_at_unguarded pinned e (.inr hA) hR (.inl (by decide)) hC s h
   simpa [pinned] using this
 
-/-- PARTIAL (pinned tree): execution panics only at one of the known unguarded sites. -/
-theorem execute_total_partial (e : Env) (hR : RpcOk e) (hV : OldVotesOk e) (hC : CapOk e) (s : Site)
-    (h : execute pinned e = .panic s) :
-    s = .tNameUpdTo ∨ s = .tNameOwner0 ∨ s = .vDaoVal ∨ s = .eAdmin0 ∨ s = .eCheckArgs0 ∨ s = .rAddSlice ∨ s = .gAdmins := by
-  have := execute_panics_only_at_unguarded pinned e (.inl (by decide)) hR hV hC s h
-  simpa [pinned] using this
+/-- With the one remaining guard (BP candidates must be 39 bytes; `u = []`) and the invariant on old
+vote records it establishes, execution of any transaction never panics: the full second clause. -/
+theorem execute_total_repaired (e : Env) (h : StateOk e) (s : Site) : execute [] e ≠ .panic s := by
+  intro hp
+  have := execute_panics_only_at_unguarded [] e (.inr h.admins) h.rpc (.inr h.votes) h.cap s hp
+  cases this
 
-/-- Full strength for the tree with the proposed repairs (`u = []`): admission never panics. -/
+/-- … and admission stays total with that guard. -/
 theorem validate_total_repaired (e : Env) (h : StateOk e) (s : Site) : poolAdmit [] e ≠ .panic s := by
   intro hp
   have := admit_panics_only_at_unguarded [] e (.inr h.admins) h.rpc s hp
   cases this
 
-/-- Full strength for the tree with the proposed repairs: executing any transaction — in particular
-any admitted one — never panics. -/
-theorem execute_total_repaired (e : Env) (h : StateOk e) (s : Site) : execute [] e ≠ .panic s := by
-  intro hp
-  have := execute_panics_only_at_unguarded [] e (.inr h.admins) h.rpc h.votes h.cap s hp
-  cases this
-
-/-- Corollary in the property's own shape (repaired tree): admitted ⇒ execution does not panic. -/
-theorem admitted_executes_repaired (e : Env) (_ : poolAdmit [] e = .ok ()) (h : StateOk e) (s : Site) :
-    execute [] e ≠ .panic s :=
-  execute_total_repaired e h s
-
-/-! ### Witnesses: the pinned tree violates the statement (tests by `decide` on concrete inputs;
-the same inputs panic in the real code, see notes/C14.md) -/
+/-! ### Witnesses (tests by `decide` on concrete inputs; the same inputs were run on the real code,
+see notes/C14.md) -/
 
 def wTx (rcpt : Str) (payload : Str) (amount : Nat) : Tx :=
   { chainOk := true, sizeOk := true, hashOk := true, sigOk := true, account := List.replicate 33 2,
@@ -151,6 +166,9 @@ def w2 : Env := wEnv aergoName (str% "{\"Name\":\"v1setOwner\",\"Args\":[]}") 0
 def w3 : Env := wEnv aergoSystem (str% "{\"Name\":\"v1voteDAO\",\"Args\":[\"BPCOUNT\"]}") 0
 def w4 : Env := wEnv aergoEnterprise (str% "{\"Name\":\"appendAdmin\",\"Args\":[1]}") 0
 def w5 : Env := wEnv aergoEnterprise (str% "{\"Name\":\"setConf\",\"Args\":[1,\"x\"]}") 0
+/-- appendAdmin of a 3-byte "address" (`DecodeAddress` accepts names). -/
+def w8 : Env := { wEnv aergoEnterprise (str% "{\"Name\":\"appendAdmin\",\"Args\":[\"abc\"]}") 0 with
+  argF := [{ addr := some [97, 98, 99] }] }
 /-- voteBP for a 22-byte peer id (a sha1 multihash: accepted by base58.Decode and IDFromBytes); Go gives
 the 22-byte candidate buffer capacity 24. -/
 def w6 : Env := { wEnv aergoSystem (str% "{\"Name\":\"v1voteBP\",\"Args\":[\"5dqt6AG4uYT6UYG9eZveuaurk12esx\"]}") 0 with
@@ -158,42 +176,46 @@ def w6 : Env := { wEnv aergoSystem (str% "{\"Name\":\"v1voteBP\",\"Args\":[\"5dq
 /-- a second BP vote by an account whose first vote named a 34-byte peer id (stored record misframed). -/
 def w7 : Env := { wEnv aergoSystem (str% "{\"Name\":\"v1voteBP\",\"Args\":[\"16Uiu2HAmPZE7gT1hF2bjpg1UVH65xyNUbBVRf3mBFBJpz3tgLGGt\"]}") 0 with
   argF := [{ b58 := some 39, pidOk := true }], candCap := 48, voteRec := [true], oldVoteOk := [false], voteAmt := [5] }
-/-- any enterprise transaction once the admin list holds a 3-byte "address". -/
-def w8 : Env := { wEnv aergoEnterprise (str% "{\"Name\":\"enableConf\",\"Args\":[\"p2pwhite\",true]}") 0 with adminsReadable := false }
 
-/-- test: `{"Name":"v1updateName","Args":["abcdefghijkl",5]}` panics inside Validate. -/
-example : poolAdmit pinned w1 = .panic .tNameUpdTo := by decide +kernel
-/-- test: `{"Name":"v1setOwner","Args":[]}` panics inside Validate. -/
-example : poolAdmit pinned w2 = .panic .tNameOwner0 := by decide +kernel
-/-- test: `{"Name":"v1voteDAO","Args":["BPCOUNT"]}` is admitted and panics in newVoteCmd. -/
-example : poolAdmit pinned w3 = .ok () ∧ execute pinned w3 = .panic .vDaoVal := by decide +kernel
-/-- test: `{"Name":"appendAdmin","Args":[1]}` panics in ValidateEnterpriseTx (admission). -/
-example : poolAdmit pinned w4 = .panic .eAdmin0 := by decide +kernel
-/-- test: `{"Name":"setConf","Args":[1,"x"]}` panics in checkArgs (admission). -/
-example : poolAdmit pinned w5 = .panic .eCheckArgs0 := by decide +kernel
-/-- test: a BP vote for a 22-byte peer id is admitted and panics in AddVote. -/
+/-- tests: the six repaired shapes are now *rejected* by admission (they panicked before the fix commits;
+`unfixed` below is the tree before them). -/
+example : poolAdmit pinned w1 = .reject .args ∧ poolAdmit pinned w2 = .reject .args ∧ poolAdmit pinned w3 = .reject .args
+    ∧ poolAdmit pinned w4 = .reject .args ∧ poolAdmit pinned w5 = .reject .args ∧ poolAdmit pinned w8 = .reject .args := by
+  decide +kernel
+
+/-- The tree before the six fix commits, for the record. -/
+def unfixed : List Site := [.tNameUpdTo, .tNameOwner0, .vDaoVal, .eAdmin0, .eCheckArgs0, .rAddSlice, .gAdmins, .rSubNil]
+
+/-- tests: what the same inputs did before the fixes (w8 was admitted and executed: it wrote a 3-byte admin). -/
+example : poolAdmit unfixed w1 = .panic .tNameUpdTo ∧ poolAdmit unfixed w2 = .panic .tNameOwner0
+    ∧ (poolAdmit unfixed w3 = .ok () ∧ execute unfixed w3 = .panic .vDaoVal)
+    ∧ poolAdmit unfixed w4 = .panic .eAdmin0 ∧ poolAdmit unfixed w5 = .panic .eCheckArgs0
+    ∧ (poolAdmit unfixed w8 = .ok () ∧ execute unfixed w8 = .ok ()) := by
+  decide +kernel
+
+/-- test (known finding C14-addVote-voteBP-candidate-length): a BP vote for a 22-byte peer id is admitted
+and panics in AddVote. -/
 example : poolAdmit pinned w6 = .ok () ∧ execute pinned w6 = .panic .rAddSlice := by decide +kernel
-/-- test: with a misframed old vote record the next vote is admitted and panics in SubVote. -/
+/-- test (known finding C14-subVote-corrupt-old-vote): with a misframed old vote record the next vote is
+admitted and panics in SubVote. -/
 example : poolAdmit pinned w7 = .ok () ∧ execute pinned w7 = .panic .rSubNil := by decide +kernel
-/-- test: with an unreadable admin list every enterprise transaction panics in getAdmins. -/
-example : poolAdmit pinned w8 = .panic .gAdmins := by decide +kernel
+def wUnreadable : Env :=
+  { wEnv aergoEnterprise (str% "{\"Name\":\"enableConf\",\"Args\":[\"p2pwhite\",true]}") 0 with adminsReadable := false }
 
-/-- The full statement is false on the pinned tree: admission panics on `w1` (a healthy state). -/
-theorem validate_total_violated : ¬ ∀ e s, RpcOk e → poolAdmit pinned e ≠ .panic s := by
-  intro h
-  refine h w1 .tNameUpdTo ?_ (by decide +kernel)
-  intro ci a0 c _ _ _ hc
-  cases hc
+/-- test: the admin-list hypothesis of `validate_total` is needed — in a state whose admin list cannot be
+read back (unreachable since fix 2586c6fa) every enterprise transaction panics in getAdmins. -/
+example : poolAdmit pinned wUnreadable = .panic .gAdmins := by
+  decide +kernel
 
-/-- The full statement is false on the pinned tree: `w3` is admitted and its execution panics. -/
+/-- The second clause is false on the current tree: `w6` (a healthy state) is admitted and its
+execution panics. -/
 theorem execute_total_violated :
     ¬ ∀ e s, poolAdmit pinned e = .ok () → execute pinned e ≠ .panic s := by
   intro h
-  exact h w3 .vDaoVal (by decide +kernel) (by decide +kernel)
+  exact h w6 .rAddSlice (by decide +kernel) (by decide +kernel)
 
-/-- With the proposed repairs the same inputs are rejected (tests). -/
-example : poolAdmit [] w1 = .reject .args ∧ poolAdmit [] w2 = .reject .args ∧ poolAdmit [] w3 = .reject .args
-    ∧ poolAdmit [] w4 = .reject .args ∧ poolAdmit [] w5 = .reject .args ∧ poolAdmit [] w6 = .reject .payload := by decide +kernel
+/-- With the remaining guard `w6` is rejected (test). -/
+example : poolAdmit [] w6 = .reject .payload := by decide +kernel
 
 /-! ### Non-vacuity: the hypotheses hold on concrete non-trivial environments -/
 
